@@ -259,7 +259,7 @@ def run(ctx: Ctx) -> None:
     state: Dict[str, Any] = {}
     with Taps(ctx) as taps:
         install(taps, ctx, state)
-        for idx in ctx.indices("tables", 40 if ctx.quick else 800):
+        for idx in ctx.indices("tables", 40 if ctx.quick else 6000):
             r = ctx.rng("tables", idx)
             task = r.choice(["detection", "detection", "tracking", "fp_validation"])
             frame_id = ["base_link", "map"][idx % 2]
